@@ -960,7 +960,11 @@ func worker(sh *ev.Shard, prop string) {
 		}
 		for _, c := range cs {
 			task++
-			if task%sh.N != sh.Index {
+			if replayType != "" {
+				if t.String() != replayType || c.ID != replayCase {
+					continue
+				}
+			} else if task%sh.N != sh.Index {
 				continue
 			}
 			sh.Cur(prop, t.String()+"/"+c.ID)
@@ -995,7 +999,7 @@ func worker(sh *ev.Shard, prop string) {
 				sh.Sample(map[string]any{"type": t.String(), "case": c.ID, "tree": gcore.Describe(c.Msg)})
 			}
 		}
-		if prop == "C08" {
+		if prop == "C08" && replayType == "" {
 			L := 3
 			if sh.Thorough() {
 				L = 4
@@ -1020,7 +1024,19 @@ func wantRuntime(rt corpus.Runtime, thorough bool) bool {
 var Pre func(r *ev.Run)
 
 // Main is the entry point shared by the per-property binaries.
+// replayType / replayCase restrict a worker to one (type, value tree): single-case replay.
+var replayType, replayCase string
+
 func Main(prop, level string, rule string, assumptions ...string) {
+	for i, a := range os.Args {
+		if a == "--replay-case" && i+1 < len(os.Args) {
+			// "<rt>/<file>/<Msg>/<case id>[/<variant or mutation>]": re-run every oracle of the property on that one value tree
+			parts := strings.SplitN(os.Args[i+1], "/", 5)
+			if len(parts) >= 4 {
+				replayType, replayCase = strings.Join(parts[:3], "/"), parts[3]
+			}
+		}
+	}
 	if sh := ev.ShardFromArgs(); sh != nil {
 		worker(sh, prop)
 		return
@@ -1030,7 +1046,12 @@ func Main(prop, level string, rule string, assumptions ...string) {
 	if Pre != nil {
 		Pre(r)
 	}
-	r.RunShards(32, runtime.NumCPU(), 8<<30)
+	if replayType != "" {
+		r.RunShards(1, 1, 8<<30, "--replay-case", replayType+"/"+replayCase)
+		r.Set("replayed_case", replayType+"/"+replayCase)
+	} else {
+		r.RunShards(32, runtime.NumCPU(), 8<<30)
+	}
 	r.Rule(rule)
 	for _, a := range assumptions {
 		r.Assume(a)
